@@ -378,7 +378,7 @@ def check(ctx, rep):
             for label, env, want in (("menu", {param: Const("application/gopher-menu")}, expected),
                                      ("none", {param: Const(None)}, "<const>"),
                                      ("other", {param: Const("image/x-unlisted")}, "image/x-unlisted")):
-                w = Walker(prog, ctx.resolver)
+                w = Walker(prog, ctx.resolver, inline=lambda fn, t, d: d < 2 and fn.module.name.startswith("pygopherd.protocols") and len(fn.node.body) <= 8)
                 for p in w.run(m, P, env=env):
                     if p.kind != "return" or p.value.kind != "const" or not isinstance(p.value.value, str):
                         problems.add(f"for a {label} type the function does not return a MIME type string ({p.kind} {p.value})")
@@ -449,6 +449,30 @@ def link_target_obligations(ctx, rep, rule="R06e"):
             hs = [g for g, _, _, _ in helper_calls(prog, ctx.resolver, ro, P, depth=2)]
             if not any(isinstance(n, ast.Call) and (dotted(n.func) or "").split(".")[-1] in QUOTES for g in hs for n in ast.walk(g.node)):
                 continue
+        # decided by evaluating the renderer on entries with and without host / port, when the walker can follow it
+        from .c05 import rendered_targets
+
+        ev_problems, decided = [], 0
+        for host, port in ((None, None), ("gopher.example.org", None), (None, 7070), ("gopher.example.org", 7070)):
+            for et in ("0", "1"):
+                rt = rendered_targets(ctx, P, "/dir/a b", et, host=host, port=port)
+                if rt is None:
+                    continue
+                decided += 1
+                what = f"host={host!r}, port={port!r}"
+                for t_ in rt:
+                    t0 = t_[len("/WAPTOP"):] if t_.startswith("/WAPTOP") else t_
+                    if host is None and port is None:
+                        if t0.startswith("gopher://") or "%20" not in t0:
+                            ev_problems.append(f"an entry without host and port ({what}) is not rendered as a relative, percent-encoded link to this server ({t_!r})")
+                    elif not t_.startswith(f"gopher://{host or 'this.example'}:{port or 70}/"):
+                        ev_problems.append(f"an entry with {what} is rendered as {t_!r}: the other protocols point the same entry at that host and port")
+                if not rt:
+                    ev_problems.append(f"an entry with {what} is rendered without a link")
+        if decided == 8:
+            rep.add(rule, f"{ro.qualname}: relative link exactly for entries without host and port", not ev_problems, ctx.where(ro),
+                    "; ".join(sorted(set(ev_problems))[:3]), key=f"{rule}|{ro.qualname}")
+            continue
         problems = set()
         n_paths = 0
         for host, port in ((None, None), ("gopher.example.org", None), (None, 7070), ("gopher.example.org", 7070)):
